@@ -510,5 +510,10 @@ def add_affine_inverses(u, ms):
     ens = ['({ %s (%s) ==> %s })' % (lets, aff, e) for e in eq_all(ms, 'res', spec)]
     u.take(P, gh, 'inverted_affine_transform', C(ensures=ens, prologue='proof { crate::vec::lemma_sm_new_all(); axiom_eps(); }',
                                                  closures=[CLOSURE_EPS]))
+    lets_o = ' '.join('let c%d = %s; let s%d = if abs_r(c%d) > eps_r() { c%d } else { 1real };'
+                      % (i, X.verus(X.sum_([Ao[k, i] * Ao[k, i] for k in range(3)])), i, i, i) for i in range(3))
+    u.take(P, gh, 'invert_affine_transform', C(
+        ret=None, ensures=['({ %s (%s) ==> %s })' % (lets_o, affine_last_row(ms, 'old(self)'), e)
+                           for e in eq_all(ms, 'final(self)', affine_inverse_spec(Ao, sv))]))
     u.take(P, gh, 'invert', C(ret=None, ensures=['%s != 0real ==> %s' % (X.verus(Ao.det()), e) for e in
                                                 eq_all(ms, 'final(self)', inv_spec(Ao))]))
